@@ -104,7 +104,7 @@ fn trees(leaves: &[usize], d: usize, w: usize, inc: bool, cap: usize) -> Vec<T> 
 
 fn entries() -> Vec<Entry<EntryInit, EntryNew>> {
     let mut v = Vec::new();
-    for name in [None, Some("a"), Some("b"), Some("ab")] {
+    for name in [None, Some("a"), Some("b"), Some("ab"), Some("ba")] {
         for desc in 0..4 {
             for gid in [None, Some(1u32), Some(2)] {
                 for uuid in [UUID_SYSTEM, OTHER_UUID, Uuid::from_u128(7)] {
@@ -175,8 +175,13 @@ fn check_tree(fx: &Fixture, t: &T, nontrivial: &mut u64, evals: &mut u64) -> Opt
         Ok(f) => f,
         Err(e) => return Some(("validate_failed".into(), format!("alphabet filter did not validate: {e:?}"))),
     };
+    check_filter(fx, &fv, &shape(t), matches!(t, T::L(_)), nontrivial, evals)
+}
+
+/// The comparison itself, for a validated filter however it was built.
+fn check_filter(fx: &Fixture, fv: &Filter<FilterValid>, shape: &str, is_leaf: bool, nontrivial: &mut u64, evals: &mut u64) -> Option<(String, String)> {
     for (iname, im) in &fx.idx {
-        let Some(raw) = filter_resolve_unoptimised(&fv, &fx.ident, im.as_ref()) else {
+        let Some(raw) = filter_resolve_unoptimised(fv, &fx.ident, im.as_ref()) else {
             return Some(("resolve_failed".into(), "filter did not resolve".into()));
         };
         let base = matches(&raw, &fx.entries);
@@ -191,7 +196,7 @@ fn check_tree(fx: &Fixture, t: &T, nontrivial: &mut u64, evals: &mut u64) -> Opt
         };
         *evals += 3 * fx.entries.len() as u64;
         let hits = base.iter().filter(|b| **b).count();
-        if hits > 0 && hits < base.len() && !matches!(t, T::L(_)) {
+        if hits > 0 && hits < base.len() && !is_leaf {
             *nontrivial += 1;
         }
         for (which, f) in [("optimise", &opt), ("fast_optimise", &fast), ("resolve", &real)] {
@@ -199,7 +204,7 @@ fn check_tree(fx: &Fixture, t: &T, nontrivial: &mut u64, evals: &mut u64) -> Opt
             if got != base {
                 let i = got.iter().zip(base.iter()).position(|(a, b)| a != b).unwrap_or(0);
                 return Some((
-                    format!("{which}_changes_meaning:{}", shape(t)),
+                    format!("{which}_changes_meaning:{shape}"),
                     format!(
                         "{which} under idxmeta {iname} changes the match set: entry #{i} {:?} matched {} before and {} after; before={:?} after={:?}",
                         fx.entries[i].get_ava_set(Attribute::Name).map(|v| v.to_proto_string_clone_iter().collect::<Vec<_>>()),
@@ -268,19 +273,157 @@ fn order_check(fx: &Fixture) -> (u64, Option<(String, String)>) {
 /// One live server per thread, leaked on purpose: its read transaction (and so the full
 /// server schema, including the posix attributes) stays valid for the whole run.
 fn fixture() -> Fixture {
+    fixture_with_txn().0
+}
+
+fn fixture_with_txn() -> (Fixture, &'static mut QueryServerReadTransaction<'static>) {
     let srv: &'static Srv = Box::leak(Box::new(Srv::new()));
     let r: &'static mut QueryServerReadTransaction<'static> = Box::leak(Box::new(
         srv.rt
             .block_on(srv.qs.read())
             .unwrap_or_else(|e| kv_engine::ctx::machinery_exit(&format!("read txn: {e:?}"))),
     ));
-    Fixture {
-        schema: r.get_schema(),
-        ident: kanidmd_lib::verif_hooks::identity_internal(),
-        entries: entries(),
-        idx: idxmetas(),
+    // a second server: the in-memory database has a single connection, held by `r` above
+    let srv2: &'static Srv = Box::leak(Box::new(Srv::new()));
+    let r2: &'static mut QueryServerReadTransaction<'static> = Box::leak(Box::new(
+        srv2.rt
+            .block_on(srv2.qs.read())
+            .unwrap_or_else(|e| kv_engine::ctx::machinery_exit(&format!("read txn: {e:?}"))),
+    ));
+    (
+        Fixture {
+            schema: r.get_schema(),
+            ident: kanidmd_lib::verif_hooks::identity_internal(),
+            entries: entries(),
+            idx: idxmetas(),
+        },
+        r2,
+    )
+}
+
+// ---------------------------------------------------------------- front-end built filters
+//
+// Anchored substring terms (starts-with / ends-with) cannot be written with the FC constructors;
+// they only arise from SCIM and LDAP filters. This phase builds filters through the real
+// `Filter::from_scim_ro`, so every term kind over the same (attribute, value) pair can meet in
+// one group.
+
+use kanidm_proto::scim_v1::{AttrPath as ScimAttrPath, ScimFilter};
+
+#[derive(Clone, Debug, serde::Serialize, serde::Deserialize)]
+enum S {
+    /// (attribute index, operator 0=pr 1=eq 2=co 3=sw 4=ew, value index)
+    L(usize, usize, usize),
+    And(Box<S>, Box<S>),
+    Or(Box<S>, Box<S>),
+    Not(Box<S>),
+}
+
+fn to_scim(t: &S) -> ScimFilter {
+    match t {
+        S::L(a, op, v) => {
+            let attr = if *a == 0 { Attribute::Name } else { Attribute::Description };
+            let path = ScimAttrPath { a: attr, s: None };
+            let val = serde_json::Value::String(["a", "b"][*v].to_string());
+            match op {
+                0 => ScimFilter::Present(path),
+                1 => ScimFilter::Equal(path, val),
+                2 => ScimFilter::Contains(path, val),
+                3 => ScimFilter::StartsWith(path, val),
+                _ => ScimFilter::EndsWith(path, val),
+            }
+        }
+        S::And(a, b) => ScimFilter::And(Box::new(to_scim(a)), Box::new(to_scim(b))),
+        S::Or(a, b) => ScimFilter::Or(Box::new(to_scim(a)), Box::new(to_scim(b))),
+        S::Not(a) => ScimFilter::Not(Box::new(to_scim(a))),
     }
 }
+
+fn scim_shape(t: &S) -> String {
+    match t {
+        S::L(..) => "l".into(),
+        S::And(a, b) => format!("&({}{})", scim_shape(a), scim_shape(b)),
+        S::Or(a, b) => format!("|({}{})", scim_shape(a), scim_shape(b)),
+        S::Not(a) => format!("!{}", scim_shape(a)),
+    }
+}
+
+fn scim_leaves(attrs: &[usize]) -> Vec<S> {
+    let mut v = Vec::new();
+    for &a in attrs {
+        v.push(S::L(a, 0, 0));
+        for val in 0..2 {
+            for op in 1..5 {
+                v.push(S::L(a, op, val));
+            }
+        }
+    }
+    v
+}
+
+fn scim_grow(prev: &[S], base: &[S]) -> Vec<S> {
+    let mut v = Vec::new();
+    for a in prev {
+        v.push(S::Not(Box::new(a.clone())));
+        for b in base {
+            v.push(S::And(Box::new(a.clone()), Box::new(b.clone())));
+            v.push(S::Or(Box::new(a.clone()), Box::new(b.clone())));
+            v.push(S::And(Box::new(b.clone()), Box::new(a.clone())));
+            v.push(S::Or(Box::new(b.clone()), Box::new(a.clone())));
+        }
+    }
+    v
+}
+
+fn scim_trees(thorough: bool) -> Vec<S> {
+    let all = scim_leaves(&[0, 1]);
+    let name_a: Vec<S> = vec![S::L(0, 1, 0), S::L(0, 2, 0), S::L(0, 3, 0), S::L(0, 4, 0), S::L(0, 3, 1)];
+    let mut v = all.clone();
+    let d2 = scim_grow(&all, &all);
+    v.extend(d2);
+    // depth 3 over the terms on name that share one value (and one starts-with of the other)
+    let d2s = scim_grow(&name_a, &name_a);
+    v.extend(scim_grow(&d2s, &name_a));
+    if thorough {
+        let d2n = scim_grow(&scim_leaves(&[0]), &scim_leaves(&[0]));
+        v.extend(scim_grow(&d2n, &name_a));
+    }
+    v
+}
+
+/// returns (filters, violations)
+fn scim_phase(fx: &Fixture, r: &mut QueryServerReadTransaction<'static>, thorough: bool, only: Option<&S>, evals: &mut u64, nontrivial: &mut u64) -> (u64, Vec<(String, String, S)>) {
+    let trees: Vec<S> = match only {
+        Some(t) => vec![t.clone()],
+        None => scim_trees(thorough),
+    };
+    let mut bad: Vec<(String, String, S)> = Vec::new();
+    let mut n = 0u64;
+    for t in &trees {
+        let f = match Filter::from_scim_ro(&fx.ident, &to_scim(t), r) {
+            Ok(f) => f,
+            Err(e) => {
+                bad.push(("scim_conversion_failed".into(), format!("{t:?}: {e:?}"), t.clone()));
+                continue;
+            }
+        };
+        let fv = match f.validate(fx.schema) {
+            Ok(f) => f,
+            Err(e) => {
+                bad.push(("validate_failed".into(), format!("{t:?}: {e:?}"), t.clone()));
+                continue;
+            }
+        };
+        n += 1;
+        if let Some((k, w)) = check_filter(fx, &fv, &format!("scim:{}", scim_shape(t)), matches!(t, S::L(..)), nontrivial, evals) {
+            if !bad.iter().any(|b| b.0 == k) {
+                bad.push((k, format!("[built from the SCIM filter {}] {w}", to_scim(t)), t.clone()));
+            }
+        }
+    }
+    (n, bad)
+}
+
 
 struct Acc {
     fx: Fixture,
@@ -293,9 +436,20 @@ struct Acc {
 
 pub fn run(args: &[String]) -> ! {
     let mut ctx = Ctx::new("C02", Level::Exploration, args);
-    let fx = fixture();
+    let (fx, rtxn) = fixture_with_txn();
 
     if let Some(r) = ctx.replay.clone() {
+        if !r["case"]["scim_tree"].is_null() {
+            let t: S = serde_json::from_value(r["case"]["scim_tree"].clone()).unwrap_or_else(|e| kv_engine::ctx::machinery_exit(&format!("bad tree: {e}")));
+            println!("scim filter: {}", to_scim(&t));
+            let (mut a, mut b) = (0, 0);
+            let (_, bad) = scim_phase(&fx, rtxn, false, Some(&t), &mut a, &mut b);
+            for (k, w, _) in bad {
+                println!("{k}: {w}");
+                ctx.violation(&k, &w, r["case"].clone());
+            }
+            ctx.finish();
+        }
         let t: T = serde_json::from_value(r["case"]["tree"].clone()).unwrap_or_else(|e| kv_engine::ctx::machinery_exit(&format!("bad tree: {e}")));
         println!("filter: {:?}", to_fc(&t));
         let (mut a, mut b) = (0, 0);
@@ -356,6 +510,15 @@ pub fn run(args: &[String]) -> ! {
             }
         }
     }
+    // filters built by the SCIM front end (anchored substring terms included)
+    let thorough = ctx.thorough();
+    let (scim_n, scim_bad) = scim_phase(&fx, rtxn, thorough, None, &mut evals, &mut nontriv);
+    nfilters += scim_n;
+    for (k, w, t) in scim_bad {
+        ctx.violation(&k, &w, json!({"scim_tree": t}));
+    }
+    described.push(json!({"built_by": "Filter::from_scim_ro", "leaves": "pr / eq / co / sw / ew on name and description with values a, b", "depth": 3, "filters": scim_n}));
+    ctx.sample(json!({"scim_filter": to_scim(&S::And(Box::new(S::L(0, 3, 0)), Box::new(S::Or(Box::new(S::L(0, 4, 0)), Box::new(S::Not(Box::new(S::L(1, 2, 1))))))) ).to_string()}));
     let (ord_n, ord_bad) = order_check(&fx);
     if let Some((k, w)) = ord_bad {
         ctx.violation(&k, &w, json!({"ord": true}));
@@ -370,7 +533,7 @@ pub fn run(args: &[String]) -> ! {
     ctx.set("exhaustive", true);
     ctx.set(
         "rule",
-        "every filter tree of the stated depth/width over each leaf alphabet (children are ordered sequences, so duplicates / nesting / single-term groups are included) x 4 index-metadata variants x {optimise, fast_optimise, public resolve} x every entry of a 144-entry alphabet; evaluations = entry matches compared; a (filter, idxmeta) case is non-trivial when the filter has an operator and matches some but not all entries",
+        "every filter tree of the stated depth/width over each leaf alphabet (children are ordered sequences, so duplicates / nesting / single-term groups are included) x 4 index-metadata variants x {optimise, fast_optimise, public resolve} x every entry of a 180-entry alphabet; evaluations = entry matches compared; a (filter, idxmeta) case is non-trivial when the filter has an operator and matches some but not all entries",
     );
     ctx.assume("meaning = the real entry_match_no_index on the unoptimised resolved filter; the entry alphabet is name in {-,a,b,ab} x description subsets of {a,b} x gid {-,1,2} x uuid {self,other,third}");
     ctx.finish();
